@@ -72,7 +72,22 @@ OPS = {
     19: ('matching', ['sq 1'], ()),
     # a known concrete type that fits no slot of the container (which has a slot of an abstract type)
     20: ('matching', ['<tn/>'], ()),
+    # a component whose type EXTENDS a type of the schema that has a '+' key, and declares as its own a key
+    # name that earlier loads (16) used as an arbitrary key of the base type
+    21: ('import', ['%import vfq_k13', '<pk>', 'zq blue', 'zr red', '</pk>', '<tc>', 'zq 2', '</tc>'], ()),
 }
+
+
+def _own_package():
+    import os
+    d = ensure_packages()
+    p = os.path.join(d, 'vfq_k13')
+    if not os.path.isdir(p):
+        os.makedirs(p, exist_ok=True)
+        open(os.path.join(p, '__init__.py'), 'w').write('')
+        open(os.path.join(p, 'component.xml'), 'w').write(
+            '<component>\n <sectiontype name="pk" extends="tc" implements="aa">\n  <key name="zq" default="none"/>\n'
+            ' </sectiontype>\n</component>\n')
 
 
 def mutate(v, depth=0):
@@ -206,7 +221,7 @@ class C13(Harness):
 
     def _schema(self):
         import ZConfig
-        ensure_packages()
+        _own_package()
         return ZConfig.loadSchemaFile(io.StringIO(XML))
 
     def observe(self, unit, inp):
